@@ -132,10 +132,14 @@ def execute(h, universe):
         if flags["n"] == "reject":
             raise Rej("normalizer")
         if flags["n"] == "rename":
-            d = dict(md)
-            if "a" in d:
-                d["c"] = d.pop("a")
-            return d
+            # the rename is done IN PLACE on what the normalizer is handed (and that object is returned): the RunEngine must
+            # hand it a private copy -- nothing written here may reach the metadata sources of later opens
+            # (it is handed a ChainMap: writes go to its first map, the key is removed from every layer)
+            if "a" in md:
+                md["c"] = md["a"]
+                for layer in getattr(md, "maps", [md]):
+                    layer.pop("a", None)
+            return md
         return md
 
     init = h[0]
